@@ -67,6 +67,9 @@ struct Prog {
     ids: Vec<String>,
     src: String,
     batch: bool,
+    /// module path of the entry program and host-supplied modules (module-graph programs)
+    path: Option<String>,
+    modules: std::collections::BTreeMap<String, String>,
 }
 
 /// Serialized per-schedule record produced in the child.
@@ -100,11 +103,16 @@ fn run_unit_progs(r: &mut UnitResult, progs: &[Prog], exhaustive_points: bool, f
     let lim = Limits { wall: std::time::Duration::from_secs(400), address_space: 3 << 30, stack: 0 };
     let exit = isolate::run(&lim, || {
         for (pi, p) in progs.iter().enumerate() {
-            let reference = runner::run_fresh(&p.src, &Sched::Threshold(0).cfg());
+            let with = |mut c: RunConfig| {
+                c.module_path = p.path.clone();
+                c.modules = p.modules.clone();
+                c
+            };
+            let reference = runner::run_fresh(&p.src, &with(Sched::Threshold(0).cfg()));
             isolate::emit(&format!("{}\u{6}{}\u{7}", pi, record("ref", &reference)));
             if reference.kind != "limit" {
                 for s in schedules_for(reference.steps, exhaustive_points) {
-                    let o = runner::run_fresh(&p.src, &s.cfg());
+                    let o = runner::run_fresh(&p.src, &with(s.cfg()));
                     isolate::emit(&format!("{}\u{6}{}\u{7}", pi, record(&s.name(), &o)));
                 }
             }
@@ -209,7 +217,13 @@ fn run_unit_progs(r: &mut UnitResult, progs: &[Prog], exhaustive_points: bool, f
         // (process aborts on impossible allocations etc. are C06's subject)
         let src = p.src.clone();
         let lim1 = Limits { wall: std::time::Duration::from_secs(60), address_space: 3 << 30, stack: 0 };
-        let alone = isolate::run(&lim1, move || runner::run_fresh(&src, &Sched::Threshold(0).cfg()).kind);
+        let (mp, mm) = (p.path.clone(), p.modules.clone());
+        let alone = isolate::run(&lim1, move || {
+            let mut c = Sched::Threshold(0).cfg();
+            c.module_path = mp;
+            c.modules = mm;
+            runner::run_fresh(&src, &c).kind
+        });
         if why == "timeout" || !matches!(alone, Exit::Ok(_)) {
             r.inconclusive += 1;
             r.note(format!("unit child died ({}) near [{}]; the program also dies with the collector off: not judged here", why, truncate(&p.ids.join(","), 80)));
@@ -227,13 +241,31 @@ fn run_unit_progs(r: &mut UnitResult, progs: &[Prog], exhaustive_points: bool, f
     }
 }
 
+fn module_programs() -> Vec<Prog> {
+    let mut v: Vec<Prog> = crate::modgraphs::graphs()
+        .into_iter()
+        .map(|g| Prog { ids: vec![g.id], src: g.src, batch: false, path: g.path, modules: g.modules })
+        .collect();
+    for (n, text) in crate::modgraphs::ROLE_MODULES {
+        v.push(Prog {
+            ids: vec![format!("role.{}.provided", n)],
+            src: crate::modgraphs::importer("./m.ts"),
+            batch: false,
+            path: Some("/app/main.ts".into()),
+            modules: [("/app/m.ts".to_string(), text.to_string())].into_iter().collect(),
+        });
+        v.push(Prog { ids: vec![format!("role.{}.main", n)], src: format!("{}\n[typeof bump, String(counter), String(value)].join()", text), batch: false, path: Some("/app/m.ts".into()), modules: Default::default() });
+    }
+    v
+}
+
 fn atom_family(id: &str) -> String {
     id.split('#').next().unwrap_or(id).to_string()
 }
 
 impl Check for C02 {
     fn units(&self, ctx: &Ctx) -> usize {
-        atom_items(ctx).len().div_ceil(BATCH * BATCHES_PER_UNIT) + corpus::b_units(ctx)
+        atom_items(ctx).len().div_ceil(BATCH * BATCHES_PER_UNIT) + corpus::b_units(ctx) + 1
     }
 
     fn run_unit(&self, ctx: &Ctx, idx: usize) -> UnitResult {
@@ -248,7 +280,7 @@ impl Check for C02 {
             drop(items);
             let progs: Vec<Prog> = slice
                 .chunks(BATCH)
-                .map(|c| Prog { ids: c.iter().map(|i| i.id.clone()).collect(), src: c01::batch_program(c), batch: true })
+                .map(|c| Prog { ids: c.iter().map(|i| i.id.clone()).collect(), src: c01::batch_program(c), batch: true, path: None, modules: Default::default() })
                 .collect();
             // every individual collection point for a subset of the cells
             let step = if ctx.thorough() { 4 } else { 16 };
@@ -265,9 +297,14 @@ impl Check for C02 {
             if let Some(it) = slice.first() {
                 r.sample(json!({"cell": it.id, "program": it.human, "schedules": ["t1", "t2", "t3", "t5", "t7", "t100", "every-step"]}));
             }
+        } else if idx == na + corpus::b_units(ctx) {
+            let progs = module_programs();
+            run_unit_progs(&mut r, &progs, true, &|id: &str| id.to_string());
+            r.stat("module_graph_programs", progs.len() as i64);
+            r.sample(json!({"module_program": progs[1].ids[0], "main": progs[1].src}));
         } else {
             let bprogs = corpus::unit_programs(ctx, idx - na);
-            let progs: Vec<Prog> = bprogs.iter().map(|p| Prog { ids: vec![p.id.clone()], src: p.src.clone(), batch: false }).collect();
+            let progs: Vec<Prog> = bprogs.iter().map(|p| Prog { ids: vec![p.id.clone()], src: p.src.clone(), batch: false, path: None, modules: Default::default() }).collect();
             run_unit_progs(&mut r, &progs, false, &|id: &str| id.split('/').take(2).collect::<Vec<_>>().join("/"));
             if let Some(p) = bprogs.first() {
                 r.sample(json!({"program": p.id, "features": p.features}));
@@ -282,13 +319,16 @@ impl Check for C02 {
         if ids.is_empty() {
             return r;
         }
-        if ids[0].starts_with("B/") {
+        if ids[0].starts_with("graph.") || ids[0].starts_with("role.") {
+            let progs: Vec<Prog> = module_programs().into_iter().filter(|p| p.ids[0] == ids[0]).collect();
+            run_unit_progs(&mut r, &progs, true, &|id: &str| id.to_string());
+        } else if ids[0].starts_with("B/") {
             let parts: Vec<&str> = ids[0].split('/').collect();
             let p = corpus::b_program(parts[1].parse().unwrap_or(0), parts[2].parse().unwrap_or(0));
-            run_unit_progs(&mut r, &[Prog { ids: vec![p.id.clone()], src: p.src.clone(), batch: false }], true, &|id: &str| id.to_string());
+            run_unit_progs(&mut r, &[Prog { ids: vec![p.id.clone()], src: p.src.clone(), batch: false, path: None, modules: Default::default() }], true, &|id: &str| id.to_string());
         } else {
             let items: Vec<Item> = c01::all_items().into_iter().chain(crate::holders::items()).filter(|i| ids.contains(&i.id)).collect();
-            let prog = Prog { ids: items.iter().map(|i| i.id.clone()).collect(), src: c01::batch_program(&items), batch: true };
+            let prog = Prog { ids: items.iter().map(|i| i.id.clone()).collect(), src: c01::batch_program(&items), batch: true, path: None, modules: Default::default() };
             run_unit_progs(&mut r, &[prog], items.len() == 1, &atom_family);
         }
         r
